@@ -28,7 +28,7 @@ PROPS = {
 }
 
 PROPS["C11"] = dict(
-    verus_units=["valid"],
+    verus_units=["valid", "core"],
     kani=["validation_leaf"],
     technique="Verus contracts on all of validation/src/header/mod.rs against a consensus-rule spec (accept_spec)",
     level_text="unbounded deductive proof (all header chains, networks, candidates, times) that validate_header accepts iff the consensus rules "
@@ -38,7 +38,7 @@ PROPS["C11"] = dict(
     explanation="validate_header, is_timestamp_valid, get_next_target, find_next_difficulty_in_chain, compute_next_difficulty and constants.rs are extracted "
                 "verbatim and proved equal to accept_spec / median_time_past / required_target / walk_back / retarget_bits.",
     unverified_links=[
-        "canister/src/validation.rs: the canister's HeaderStore implementation (unstable chain + announced headers + stable store) is assumed to satisfy the abstract store contract (chain_wf, lookups by hash/height)",
+        "canister/src/validation.rs: the three HeaderStore methods of ValidationContext ARE verified (unit core, fragment hstore: lookups over stable headers ++ context chain) given the assumed map semantics of BlockHeaderStore; ValidationContext::new / new_with_next_block_headers building that chain are not",
         "rust-bitcoin CompactTarget::from_next_work_required (4x clamp, pow limit) and Header::validate_pow are dependencies: uninterpreted",
     ],
     assumptions=COMMON_ASSUMPTIONS + [
